@@ -32,6 +32,14 @@ structure SemCase where
   stm : Json
   /-- constants of the final IR by node id: what the compiler claims for a name it does not materialise -/
   irConsts : List (String × SigMap) := []
+  /-- nodes merged (CSE) or folded away by the optimisers: old id ↦ the node standing for it -/
+  replaced : Json := Json.null
+
+/-- follow the optimisers' replacement map -/
+def SemCase.resolve (c : SemCase) (src : String) : String :=
+  (List.range 8).foldl (fun s _ => match (c.replaced.getObjVal? s).toOption with
+    | some (.str t) => t
+    | _ => s) src
 
 def idxOfId (ids : Array String) (id : String) : Option Nat := ids.findIdx? (· == id)
 
@@ -51,8 +59,10 @@ def buildObs (c : SemCase) : List Observation × (Sig → Sig) :=
   let ren : Sig → Sig := fun s => (renPairs.lookup s).getD s
   let obs := named.filterMap (fun nm =>
     let r := jgetD c.names nm.name
-    let src := jstrD r "src"
-    if src == "" then none else
+    let src0 := jstrD r "src"
+    if src0 == "" then none else
+    -- a result merged into an identical earlier one is observed at the node that stands for it
+    let src := if (idxOfId c.ids src0).isSome || (idxOfId c.ids s!"{src0}_{nm.name}_output_anchor").isSome then src0 else c.resolve src0
     let anchorId := s!"{src}_{nm.name}_output_anchor"
     let sig : Option Sig :=
       if nm.isBundle then none
@@ -118,7 +128,7 @@ def runSem (j : Json) : Json :=
           | .error _ => []
         let m : SigMap := if sigs.isEmpty then [(factorioName stm (jstrD op "output_type"), i32 ((jgetD op "value").getInt?.toOption.getD 0))] else sigs
         some (jstrD op "id", m.filter (fun (_, v) => v != 0)))
-      let c : SemCase := { core, bp, circ := { bp.toCircuit with sources := srcIdx }, ids, names := jgetD j "names", stm, irConsts }
+      let c : SemCase := { core, bp, circ := { bp.toCircuit with sources := srcIdx }, ids, names := jgetD j "names", stm, irConsts, replaced := jgetD j "replaced" }
       let (obs, ren) := buildObs c
       let inputs := buildInputs c
       let seed := (jnatD j "seed" 1).toUInt64
@@ -265,7 +275,8 @@ def runSem (j : Json) : Json :=
       -- verified validator for the scalar fragment (theorem Facto.scalar_end_to_end)
       let roots : List (Nat × Bind) := (core.named.toList.filter (·.topLevel)).filterMap (fun nm =>
         let r := jgetD c.names nm.name
-        let src := jstrD r "src"
+        let src0 := jstrD r "src"
+        let src := if (idxOfId c.ids src0).isSome || (idxOfId c.ids s!"{src0}_{nm.name}_output_anchor").isSome then src0 else c.resolve src0
         if nm.isBundle then
           match idxOfId c.ids src with
           | some i => some (nm.node, Bind.many [i])
@@ -282,7 +293,8 @@ def runSem (j : Json) : Json :=
            | some a => some (b, Bind.many (c.circ.loud a RG))
            | none => none)
         | nd =>
-        match idxOfId c.ids src, nd.ty? with
+        -- constant propagation replaces a node by the constant `<id>_folded`
+        match (idxOfId c.ids src).orElse (fun _ => idxOfId c.ids (src ++ "_folded")), nd.ty? with
         | some i, some ty => some (nm.node, Bind.ent i (ren ty))
         | _, _ => none)
       let entOutRoots : List (Nat × Bind) := (List.range core.nodes.size).filterMap (fun n =>
@@ -331,9 +343,19 @@ def runSem (j : Json) : Json :=
           | none => none)).toArray),
         ("pruned", Json.bool usePrune), ("cone", Json.bool useCone),
         ("n_mems", core.mems.size),
-        ("proved_names", Json.arr (if ranked && allOk then
+        ("proved_names", Json.arr ((
+            -- a name whose producer is an unmaterialised constant of the final IR: the source value is that constant
+            -- for all inputs when the node is constant-leaved with the same value (theorem Facto.constVal_sound)
+            obs.filterMap (fun o =>
+              match o.claim, o.sig with
+              | some m, some s =>
+                (match constVal core.nodes (o.node + 1) o.node with
+                 | some k => if SigMap.get m s == k then some (Json.str o.name) else none
+                 | none => none)
+              | _, _ => none)) ++ (if ranked && allOk then
             -- a name is proved when its node is bound and the place it is observed at reads exactly that binding
             (obs.filterMap (fun o =>
+              if o.claim.isSome then none else
               if let some w := o.enable then
                 (if !useCone && enableIs vc core.nodes bindF o.idx w then some (Json.str o.name) else none)
               else
@@ -353,7 +375,7 @@ def runSem (j : Json) : Json :=
                    | .many [e] => if e == o.idx then some (Json.str o.name) else none
                    | _ => none)
                 else if obsOK c.circ o.idx b then some (Json.str o.name) else none
-              | none => none)).toArray else #[]))] ++
+              | none => none)) else [])).toArray)] ++
         (if (jgetD j "dump").getBool?.toOption.getD false then
           [("dump", Json.mkObj [
             ("kinds", Json.arr (vc.kinds.map (fun k => Json.str (toString (repr k))))),
